@@ -106,7 +106,7 @@ func checkAtoi(ctx *core.Ctx, c atoiCase) {
 // specInfo is the model's protocol-level reading of an input.
 type specInfo struct {
 	wf        bool
-	class     string
+	shape     string // regression shape of the input (inputs of the repaired defects F5/F4); informational
 	mustFail  bool
 	mayReject bool
 }
@@ -116,8 +116,8 @@ func askSpec(ctx *core.Ctx, hx string) specInfo {
 	var s specInfo
 	s.wf = strings.HasPrefix(ans, "wf ")
 	for _, f := range strings.Fields(ans) {
-		if v, ok := strings.CutPrefix(f, "class="); ok && v != "-" {
-			s.class = v
+		if v, ok := strings.CutPrefix(f, "shape="); ok && v != "-" {
+			s.shape = v
 		}
 		if f == "must-fail=1" {
 			s.mustFail = true
@@ -139,15 +139,12 @@ func holds(ctx *core.Ctx, cs any, hx string, accepted bool, remote, local string
 	if ans == "true" {
 		return true
 	}
-	f := strings.Fields(ans) // false <clause> <class>
-	clause, class := "?", ""
-	if len(f) >= 3 {
+	f := strings.Fields(ans) // false <clause>
+	clause := "?"
+	if len(f) >= 2 {
 		clause = f[1]
-		if f[2] != "-" {
-			class = f[2]
-		}
 	}
-	ctx.SpecFail(clauseText(clause), class, cs, implDesc, ans)
+	ctx.SpecFail(clauseText(clause), "", cs, implDesc, ans)
 	return false
 }
 
@@ -211,15 +208,15 @@ func checkConn(ctx *core.Ctx, cc connCase) {
 	} else {
 		ctx.Count("conn/domain/other")
 	}
-	if spec.class != "" {
-		ctx.Count("conn/class/" + spec.class)
+	if spec.shape != "" {
+		ctx.Count("conn/shape/" + spec.shape)
 	}
 
 	// 1. exported ReadHeader on the same bytes, in this goroutine (a panic is recoverable here and
 	//    tells us not to hand the input to the connection's own goroutine).
 	d := directRead(stream, len(cc.Cuts)%2 == 1)
 	if strings.HasPrefix(d.head, "panic") || strings.HasPrefix(d.head, "nil-header") {
-		ctx.Crash("no header, however unusual, crashes the process", spec.class, cc, "ReadHeader: "+d.head)
+		ctx.Crash("no header, however unusual, crashes the process", "", cc, "ReadHeader: "+d.head)
 		return
 	}
 	if model == "panic" {
@@ -233,7 +230,7 @@ func checkConn(ctx *core.Ctx, cc connCase) {
 	// 2. through Listener/Conn
 	o := runConn(cc, stream)
 	if o.problem != "" {
-		ctx.Crash("the connection answers (no hang, consistent answers)", spec.class, cc, o.problem)
+		ctx.Crash("the connection answers (no hang, consistent answers)", "", cc, o.problem)
 		return
 	}
 	implAddrs := "ra=" + o.remote + " la=" + o.local
@@ -277,12 +274,15 @@ func checkStall(ctx *core.Ctx, sc stallCase) {
 	ctx.Case(fmt.Sprintf("stall:%s|%d|%s", sc.Bytes, sc.TimeoutMS, sc.Via), true)
 	ctx.Count("stall/" + sc.Via)
 	ctx.Count(fmt.Sprintf("stall/sent=%d", len(prefix)))
+	if spec.shape != "" {
+		ctx.Count("stall/shape/" + spec.shape)
+	}
 	if mHead == "err refused" {
 		ctx.Count("stall/skipped-refused-outright")
 		return
 	}
 	if d := directRead(prefix, false); strings.HasPrefix(d.head, "panic") {
-		ctx.Crash("no header, however unusual, crashes the process", spec.class, sc, d.head)
+		ctx.Crash("no header, however unusual, crashes the process", "", sc, d.head)
 		return
 	}
 	o := runStall(sc, prefix)
@@ -312,13 +312,13 @@ func checkStall(ctx *core.Ctx, sc stallCase) {
 	switch {
 	case complete:
 		if !o.accepted && !spec.mayReject {
-			ctx.SpecFail(clauseText("well-formed-accepted"), spec.class, sc, impl, "complete well-formed header followed by silence")
+			ctx.SpecFail(clauseText("well-formed-accepted"), "", sc, impl, "complete well-formed header followed by silence")
 			fine = false
 		}
 	case o.accepted:
 		// accepted although not well-formed by the protocol text: allowed, the other clauses apply
 		if o.remote == "nil" {
-			ctx.SpecFail(clauseText("no-missing-address"), spec.class, sc, impl, "")
+			ctx.SpecFail(clauseText("no-missing-address"), "", sc, impl, "")
 			fine = false
 		}
 	default:
@@ -340,13 +340,16 @@ func checkConc(ctx *core.Ctx, cc concCase) {
 	spec := askSpec(ctx, cc.Bytes)
 	ctx.Case(fmt.Sprintf("conc:%s|%v", cc.Bytes, cc.Cuts), true)
 	ctx.Count("conc/cases")
+	if spec.shape != "" {
+		ctx.Count("conc/shape/" + spec.shape)
+	}
 	if d := directRead(stream, false); strings.HasPrefix(d.head, "panic") {
-		ctx.Crash("no header, however unusual, crashes the process", spec.class, cc, d.head)
+		ctx.Crash("no header, however unusual, crashes the process", "", cc, d.head)
 		return
 	}
 	o := runConc(cc, stream)
 	if o.problem != "" {
-		ctx.Crash("concurrent callers all return", spec.class, cc, o.problem)
+		ctx.Crash("concurrent callers all return", "", cc, o.problem)
 		return
 	}
 	// model: any interleaving is a list of ops; one of them, with the payload read in one piece
@@ -440,9 +443,13 @@ var shortHeaders = []string{
 	"PROXY TCP4 1.1.1.1 1.1.1.1 2 3\r\n",
 	"PROXY TCP6 ::1 ::1 2 3\r\n",
 	"PROXY TCP6 1::2 3::4 10 20\r\n",
+	"PROXY TCP6 :: :: 1 2\r\n",  // 22 bytes: the shortest TCP6 line (regression target F5)
+	"PROXY TCP6 ::1 :: 1 2\r\n", // 23 bytes
 	"PROXY UNKNOWN\r\n",
 	"PROXY UNKNOWN ignored tail\r\n",
 	"\r\n\r\n\x00\r\nQUIT\n\x20\x00\x00\x00",
+	"\r\n\r\n\x00\r\nQUIT\n\x21\x00\x00\x02\x01\x02", // PROXY, AF_UNSPEC: accepted without addresses (regression target F4)
+	"\r\n\r\n\x00\r\nQUIT\n\x22\x11\x00\x00",         // command nibble 2, no remainder: likewise
 	"\r\n\r\n\x00\r\nQUIT\n\x21\x11\x00\x0c\x01\x02\x03\x04\x05\x06\x07\x08\x00\x50\x01\xbb",
 	"\r\n\r\n\x00\r\nQUIT\n\x21\x21\x00\x27\x20\x01\x0d\xb8\x00\x00\x00\x00\x00\x00\x00\x00\x00\x00\x00\x01\x20\x01\x0d\xb8\x00\x00\x00\x00\x00\x00\x00\x00\x00\x00\x00\x02\xc0\x00\x01\xbb\x04\x00\x00",
 }
@@ -464,7 +471,8 @@ func genConnCase(r *core.Rand, via string) connCase {
 
 func Run(ctx *core.Ctx) {
 	ctx.SetRule("streams = generated v1 lines (TCP4/TCP6/UNKNOWN; min..max-length addresses, ::-forms, embedded IPv4, leading zeros, signs, out-of-range ports, lines up to and past 107 bytes) " +
-		"and v2 headers (every command x family byte, lengths 0..2048+, TLV tails), 16% mutated (flip/delete/insert/truncate/prefix/garbage), followed by a payload; each sent in 1-4 writes " +
+		"and v2 headers (every command x family byte, lengths 0..2048+, TLV tails; the address-less ones - PROXY with an unlisted family, command nibble >= 2 - through the API and through the full proxy), " +
+		"every TCP6 line of 22-24 bytes over the short address spellings with and without payload, 16% mutated (flip/delete/insert/truncate/prefix/garbage), followed by a payload; each sent in 1-4 writes " +
 		"over loopback TCP or net.Pipe to proxyproto.Listener and read back through Conn (RemoteAddr, LocalAddr, Read, Header) and through the exported ReadHeader; " +
 		"plus net.ParseIP/strconv.Atoi texts, stalled peers, 4 concurrent callers and runs through the full proxy. " +
 		"A connection case is non-trivial when the input carries a PROXY signature or the model does not answer 'refused'; an ip/atoi case when Go accepts the text. distinct = distinct canonical inputs (bytes, cuts, transport)")
@@ -502,7 +510,9 @@ func Run(ctx *core.Ctx) {
 			conns = append(conns, connCase{Kind: "conn", Bytes: core.Hex(stream), Via: "pipe", Note: "v2/space", Cuts: genCuts(r, len(stream)), First: core.Pick(r, []string{"read", "addr"}), BufLen: 63})
 		}
 	}
-	ctx.Extra("exhaustive_subspaces", []string{"v2 command nibble x family byte (16 x 256) with one generated length/body each"})
+	ctx.Extra("exhaustive_subspaces", []string{"v2 command nibble x family byte (16 x 256) with one generated length/body each",
+		"regression targets: every `PROXY TCP6 a b p q` line of 22-24 bytes over 7 short address spellings x 4 port pairs (the 22-byte line with all 100 one-digit port pairs) x 5 payloads; v2 command nibble (16) x 26 family bytes x 6 lengths"})
+	conns = append(conns, regressConnCases(ctx.Rng.Sub())...)
 
 	// every split point of short headers: singles always, pairs and triples in the thorough tier
 	for _, h := range shortHeaders {
@@ -525,9 +535,9 @@ func Run(ctx *core.Ctx) {
 		}
 	}
 	if !ctx.Quick() {
-		ctx.Extra("exhaustive_split_points", "every 1- and 2-cut segmentation of 8 short headers + 5 payload bytes; every 3-cut segmentation of those up to 40 bytes")
+		ctx.Extra("exhaustive_split_points", "every 1- and 2-cut segmentation of 12 short headers + 5 payload bytes; every 3-cut segmentation of those up to 40 bytes")
 	} else {
-		ctx.Extra("exhaustive_split_points", "every 1-cut segmentation of 8 short headers + 5 payload bytes")
+		ctx.Extra("exhaustive_split_points", "every 1-cut segmentation of 12 short headers + 5 payload bytes")
 	}
 	for i, n := 0, ctx.N(24000, 400000); i < n; i++ {
 		conns = append(conns, genConnCase(ctx.Rng.Sub(), "pipe"))
@@ -569,8 +579,15 @@ func Run(ctx *core.Ctx) {
 		}
 		stalls = append(stalls, stallCase{Kind: "stall", Bytes: core.Hex(h[:k]), TimeoutMS: 150, Via: core.Pick(r, []string{"read", "addr"}), Connfu: r.Chance(30)})
 	}
-	// F5: a complete 22-byte TCP6 line, then silence
-	stalls = append(stalls, stallCase{Kind: "stall", Bytes: core.HexS("PROXY TCP6 :: :: 1 2\r\n"), TimeoutMS: 150, Via: "read"})
+	// regression targets: a complete 22/23-byte TCP6 line, or an address-less v2 header, then silence:
+	// the header is complete, the connection must be accepted (F5: the optimistic read waited for
+	// payload; F4: RemoteAddr was nil)
+	for _, h := range []string{"PROXY TCP6 :: :: 1 2\r\n", "PROXY TCP6 ::1 :: 1 2\r\n", "PROXY TCP6 :: 1:: 0 9\r\n",
+		"\r\n\r\n\x00\r\nQUIT\n\x21\x00\x00\x02\x01\x02", "\r\n\r\n\x00\r\nQUIT\n\x2f\x41\x00\x00"} {
+		for _, via := range []string{"read", "addr"} {
+			stalls = append(stalls, stallCase{Kind: "stall", Bytes: core.HexS(h), TimeoutMS: 150, Via: via, Connfu: via == "addr" && len(h)%2 == 0})
+		}
+	}
 	ctx.Sample(stalls[0])
 	parallel(stalls, 32, func(c stallCase) { checkStall(ctx, c) })
 
